@@ -5,8 +5,8 @@ LEVEL = "model_checking"
 MANIFEST = {
     "engine": "tlc TreeJail (attack scenarios) + vhjail c26 (raw tree objects, recording billy fs below the worktree wrapper) + tlc TreeJailTrace",
     "technique": "TLC enumerates attack scenarios (malicious tree-entry paths incl. .git case/NTFS/HFS disguises and '..', symlink entries, planted symlinks, symlink-then-directory swaps) x protectNTFS x protectHFS; trees are written as raw objects; each Worktree API call's ordered filesystem requests are replayed in TLA+ over an evolving symlink table and every request must resolve (lexically and through links) inside the worktree and outside .git; sentinel hashes as independent observation",
-    "text": "Scenario space: entry paths of <= 2 (quick) / <= 3 (thorough) components over 13 component classes, 5 link targets, 5 scenario shapes, 4 protect settings; a VERIF_SEED-stratified sample per scenario key is run (quick 450, thorough 4000 scenarios) through Checkout(force), Reset(hard), Status, Add, Restore, Move, Remove, Clean; plus 384 submodule scenarios (.gitmodules name x path x planted symlink; quick: 120 sampled) through Submodules(), Submodule.Init and Submodule.Repository with the storage filesystem recorded too.",
-    "note": "Linux/osfs only: NTFS/HFS spellings are judged by name (a forbidden component must never be created or traversed when the corresponding protect flag is on), not by a folding filesystem. Pull, CherryPick and Submodule.Update (needs a clonable remote) are not driven. A final '.git' component below a subdirectory (gitlink file position) is tolerated. Only calls that reach the billy filesystem are seen.",
+    "text": "Scenario space: entry paths of <= 2 (quick) / <= 3 (thorough) components over 13 component classes, 5 link targets, 7 scenario shapes (incl. dangling planted links in the final position), 4 protect settings; a VERIF_SEED-stratified sample per scenario key is run (quick 400, thorough 4000 scenarios) through Checkout(force), CherryPick (onto a harmless base commit), Reset(hard), Status, Add, Restore, Move, Remove, Clean; plus 384 submodule scenarios (.gitmodules name x path x planted symlink; quick: 120 sampled) through Submodules(), Submodule.Init and Submodule.Repository with the storage filesystem recorded too.",
+    "note": "Linux/osfs only: NTFS/HFS spellings are judged by name (a forbidden component must never be created or traversed when the corresponding protect flag is on), not by a folding filesystem. Pull and Submodule.Update (needs a clonable remote) are not driven. A final '.git' component below a subdirectory (gitlink file position) is tolerated. Only calls that reach the billy filesystem are seen.",
 }
 
 CFG = """CONSTANTS MaxDepth = %d EmitRows = TRUE
@@ -65,7 +65,7 @@ def run(ctx):
         raise vlib.ToolingError("C26: %d verdicts for %s traces" % (nver, rep.get("traces")))
     if not rep.get("extra", {}).get("c26_benign_checked_out"):
         raise vlib.ToolingError("C26: no benign scenario could be checked out (vacuous run)")
-    ctx.cov["bounds"] = {"component_classes": 13, "max_depth": md, "link_targets": 5, "shapes": 5, "protect_settings": 4}
+    ctx.cov["bounds"] = {"component_classes": 13, "max_depth": md, "link_targets": 5, "shapes": 7, "protect_settings": 4}
     ctx.cov["exhaustive"] = False
     ctx.cov["rule"] = ("scenarios of spec/rules/TreeJail.tla are TLC states; a seed-stratified sample per scenario key is materialised as raw objects and driven through "
                        "the worktree API; distinct = distinct scenarios; %d API-call traces with %d filesystem requests replayed by TLC, %d requests rejected" % (nver, nreq, nbad))
